@@ -161,6 +161,9 @@ func Gen(t *rapid.T) Case {
 		c.Global = rapid.IntRange(0, 3).Draw(t, "global") == 0
 	}
 	c.Default = rapid.SampledFrom([]string{"", "", "application/json", "application/json", "text/plain", "a/b"}).Draw(t, "default")
+	if len(c.Consumes) == 0 && c.Default == "" && rapid.IntRange(0, 2).Draw(t, "keep-empty-list") != 0 {
+		c.Default = "application/json" // keep the class "neither entry nor default" (status left open) small
+	}
 	c.Regs = []string{}
 	for _, m := range concrete {
 		if rapid.IntRange(0, 2).Draw(t, "registered-"+m) != 0 {
@@ -265,8 +268,8 @@ const ruleText = "consumes list of 0-4 lower-case entries (concrete, type/*, */*
 func Props() []kit.Runner {
 	return []kit.Runner{
 		kit.Prop[Case]{ID: "C06", Name: "untyped", Rule: "[untyped API as is] " + ruleText,
-			Quick: 1000, Thorough: 5000, Gen: Gen, Check: CheckUntyped, Classify: Classify},
+			Quick: 1000, Thorough: 4000, Gen: Gen, Check: CheckUntyped, Classify: Classify},
 		kit.Prop[Case]{ID: "C06", Name: "wild", Rule: "[RoutableAPI whose ConsumersFor resolves type/* and */* to the registered concrete consumers] " + ruleText,
-			Quick: 1000, Thorough: 5000, Gen: Gen, Check: CheckWild, Classify: Classify},
+			Quick: 1000, Thorough: 4000, Gen: Gen, Check: CheckWild, Classify: Classify},
 	}
 }
